@@ -1,7 +1,7 @@
 """C18 — capacity figures are truthful (DESIGN.md #C18)"""
 import subjects, common
 
-SPEC = dict(modules=["MemVerif.Props.C18", "MemVerif.Props.C18Counters"], gen_cfgs=("rwdi",),
+SPEC = dict(modules=["MemVerif.Props.C18", "MemVerif.Props.C18Counters", "MemVerif.Props.C18Compose"], gen_cfgs=("rwdi",),
             assumptions=["no-overflow side conditions are explicit hypotheses (C18_min_block_wraps shows they are needed)",
                          "counter deltas (capacity_left, pool_capacity_left, next_capacity) per operation are compared with the model on every trace line"])
 
@@ -15,10 +15,16 @@ def run(ctx):
                                                      for c in ("rwdi", "dbg")], use_driver=False))
     st.update(subjects.run(ctx, "C18", ["pool-node-fixed", "pool-array-growing", "pool-small-growing", "coll-node-log2-growing", "coll-small-identity-fixed",
                                         "stack-growing", "stack-fixed", "iter2", "iter3", "iter5", "iter3-static"], ["rwdi", "dbg"], 12 if ctx.thorough else 3, 100))
+    # reported maxima of compositions (fallback_allocator, wrappers, storages, segregator): `cmp maxima` lines of the compose harness
+    # against Model.maxima; D35 (segregator reports its fallback's figure only) is reproduced on library allocators
+    common.run_sweep(ctx, "C18", "subj_compose", ["rwdi", "dbg"], ["1" if ctx.thorough else "0", ctx.seed], ["cmp"], subject="compose",
+                     ignore_known=("D24",))
     ctx.coverage["rule"] = ("(1) grid on the real pools: node sizes 1..96 (quick) / 1..512 (thorough) x node counts 1..700 / 1..2000 incl. the multiples "
                             "of 255 +-1, x node/array/small pool: a pool constructed with min_block_size(ns,n) on a fixed block serves >= n nodes, "
                             "capacity_left drops by node_size per allocation and returns to its initial value; memory_stack / memory_arena constructed with "
                             "min_block_size(n), n up to 1500 / 6000: capacity_left() == n, n bytes (less the fences) served without growth, the arena block has n usable bytes; (2) counter values after every "
                             "operation of seeded histories compared with the model; the min_block_size formulas themselves are regenerated from the "
-                            "source by the translator and validated against the compiled functions in check C19")
+                            "source by the translator and validated against the compiled functions in check C19; (3) max_node_size / max_array_size / "
+                            "max_alignment that allocator_traits reports for 14 compositions (fallback, aligned, tracked, segregator, storages; leaves "
+                            "with distinct figures, with and without array members) compared with Model.maxima")
     subjects.sample(ctx, st)
